@@ -4,9 +4,14 @@ package main
 
 import (
 	"fmt"
+	"go/ast"
+	"go/token"
+	"go/types"
 	"path/filepath"
 	"sort"
 	"strings"
+
+	"golang.org/x/tools/go/packages"
 )
 
 // cgDeref: k of *(p + k), *(p - k) or *p, for the pointer variable named p.
@@ -188,6 +193,101 @@ character c, 'if (*(pat+k) == x) return 0' refuses the pair (c,x) for k = +1 and
 				o := s.add(Pass, nil, key, 0, "refused pairs: "+strings.Join(have, " "))
 				o.Pos = pos
 			}
+		},
+	})
+}
+
+func init() {
+	register(&Rule{
+		ID: "UT", Props: []string{"C10"}, Min: 1,
+		Doc: `"its reported error count equals the edit distance between the pattern and that span": the span of an indel hit is re-aligned in Go against the compiled pattern (ApatPattern.accepts), which
+turns a symbol of the sequence into its rank in the pattern table — symbol - 'a' — as the C encoder does (BASE_CODE, which CP holds to read u as t). Every function of pkg/obiapat (Go) that computes
+such a rank from a byte reads u as t too: it assigns 't' to that byte under a test of it against 'u'. Otherwise the search finds the site of an RNA record (u matched as t) and the re-alignment counts every u
+as a mismatch: AllMatches drops the site, BestMatch reports 3 errors for a budget of 1, obiannotate --pattern writes pattern_error:3 for the record and 1 for its DNA twin.`,
+		Run: func(c *Ctx, s *Sink) {
+			c.EachFunc([]string{"pkg/obiapat"}, func(p *packages.Package, fd *ast.FuncDecl) {
+				if rel(p.PkgPath) != "pkg/obiapat" {
+					return
+				}
+				info := p.TypesInfo
+				n := 0
+				var stack []ast.Node
+				ast.Inspect(fd.Body, func(nd ast.Node) bool {
+					if nd == nil {
+						stack = stack[:len(stack)-1]
+						return true
+					}
+					stack = append(stack, nd)
+					b, ok := nd.(*ast.BinaryExpr)
+					if !ok || b.Op != token.SUB {
+						return true
+					}
+					if v, isC := constInt(info, b.Y); !isC || v != 'a' {
+						return true
+					}
+					id, ok := ast.Unparen(b.X).(*ast.Ident)
+					if !ok {
+						return true
+					}
+					sym := info.ObjectOf(id)
+					if sym == nil {
+						return true
+					}
+					if bt, ok := sym.Type().Underlying().(*types.Basic); !ok || bt.Kind() != types.Uint8 {
+						return true
+					}
+					// the innermost function holding the rank
+					var scope ast.Node = fd.Body
+					for k := len(stack) - 1; k >= 0; k-- {
+						if l, ok := stack[k].(*ast.FuncLit); ok {
+							scope = l.Body
+							break
+						}
+					}
+					n++
+					key := fmt.Sprintf("%s:rank#%d:u-read-as-t", funcName(p, fd), n)
+					reads := false
+					ast.Inspect(scope, func(m ast.Node) bool {
+						is, ok := m.(*ast.IfStmt)
+						if !ok || is.Pos() > b.Pos() {
+							return true
+						}
+						namesU := false
+						ast.Inspect(is.Cond, func(q ast.Node) bool {
+							if e, ok := q.(*ast.BinaryExpr); ok && e.Op == token.EQL {
+								for i, side := range []ast.Expr{e.X, e.Y} {
+									other := []ast.Expr{e.Y, e.X}[i]
+									if sid, ok := ast.Unparen(side).(*ast.Ident); ok && info.ObjectOf(sid) == sym {
+										if v, isC := constInt(info, other); isC && v == 'u' {
+											namesU = true
+										}
+									}
+								}
+							}
+							return true
+						})
+						if !namesU {
+							return true
+						}
+						for _, st := range is.Body.List {
+							if as, ok := st.(*ast.AssignStmt); ok && as.Tok == token.ASSIGN && len(as.Lhs) == 1 && len(as.Rhs) == 1 {
+								if lid, ok := as.Lhs[0].(*ast.Ident); ok && info.ObjectOf(lid) == sym {
+									if v, isC := constInt(info, as.Rhs[0]); isC && v == 't' {
+										reads = true
+									}
+								}
+							}
+						}
+						return true
+					})
+					if reads {
+						s.Pass(nil, key, b.Pos(), "the symbol is read as t when it is u before its rank is taken")
+					} else {
+						s.Fail(nil, key, b.Pos(), "the rank of the symbol is taken as it is: u gets the rank 20, a bit no pattern position holds, while the C search reads u as t — the site of an RNA record is found by the automaton and lost (AllMatches) or reported with every u as an error (BestMatch: 3 errors for a budget of 1) by the re-alignment")
+					}
+					return true
+				})
+			})
 		},
 	})
 }
